@@ -438,6 +438,12 @@ EQUIV_PLUSQ = {("zk.or.verify", "c1"), ("zk.or.verify", "c2")}
 def pred_c05(line, st):
     op, a, r = toks(line)
     t = tag_of(a)
+    if op == "prop.args.malformed":
+        # a stack component that is not a group member, transcript re-proved for exactly that statement (or forged):
+        # "values that the protocol requires to lie in the group are refused"
+        if "1" in r:
+            return "malformed statement accepted (%s)" % " ".join(a)
+        return None
     if op not in VERIFY_OPS:
         return None
     acc = bool(r) and r[0] == "1"
@@ -886,6 +892,9 @@ def pred_c12(line, st):
     op, a, r = toks(line)
     if r and (r[0].startswith("trap:") or r[0] in ("timeout", "oom")):
         return "untrusted input ended in %s (%s)" % (r[0], op)
+    if op == "prop.args.malformed" and any(x.startswith("trap:") for x in r):
+        # a malformed statement with a re-proved / forged transcript reached the verifier's arithmetic (seed C12c)
+        return "verifier of a malformed statement ended in %s (%s)" % ([x for x in r if x.startswith("trap:")][0], " ".join(a))
     if op.startswith("prop.parse") and r and r[0] not in ("ok", "reject", "accept") and not r[0].startswith("throw:"):
         return "parser outcome %s" % r[0]
     return None
@@ -894,7 +903,10 @@ def pred_c12(line, st):
 PROPS["C12"] = dict(
     module="TmcgProps.C12",
     areas=[("io", {"quick": 200, "thorough": 1500}, [], "san"), ("groups", {"quick": 100, "thorough": 800}, [], "san"),
-           ("parse", {"quick": 30, "thorough": 300}, [], "san")],
+           ("parse", {"quick": 30, "thorough": 300}, [], "san"),
+           # the receiving side of the shuffle / rotation argument verifiers: mutated, re-proved and forged transcripts for
+           # malformed statements (prop.args.malformed), order of checks compared with the model (oracle-unused)
+           ("args", {"quick": 11, "thorough": 22}, [], "fast")],
     obligations=[("Tmcg.C12.imported_indices_in_range", "full"), ("Tmcg.C12.import_alloc_bound", "full"),
                  ("Tmcg.C12.remask_never_traps", "full"), ("Tmcg.C12.mix_never_traps", "full"),
                  ("Tmcg.C12.verifier_index_safe", "full"), ("Tmcg.C12.size_mismatch_aborts", "full")],
@@ -1378,8 +1390,15 @@ PROPS["C16"] = dict(
                  ("Tmcg.C16.sign_dssVerify", "full"), ("Tmcg.C16.sign_dssVerify_code", "full"), ("Tmcg.C16.sign_r_eq", "full"),
                  ("Tmcg.C16.sign_run_trace", "full"), ("Tmcg.C16.sign_mu_agree", "full"), ("Tmcg.C16.sign_s_agree", "full"), ("Tmcg.C16.sign_final_valid", "full"),
                  ("Tmcg.C16.sign_honest_example", "full"), ("Tmcg.C16.sign_honest_example_verifies", "full"),
-                 # conditional on RunBinding and on the semantic premises, which are not derived from the per-step checks
-                 ("Tmcg.C16.sign_run_agree", "partial"), ("Tmcg.C16.sign_run_valid", "partial")],
+                 # run level (round 2).  The round-1 theorems sign_run_agree / sign_run_valid assumed `RunBinding`, which
+                 # `bindsView_unsat` shows to be unsatisfiable (Pedersen commitments hide perfectly: for every first component
+                 # some second one passes the share check) - they were vacuous and are no longer registered.  Their replacements
+                 # anchor the binding hypothesis to the pairs that OCCUR in a party's inbox at its scheduled round (RunViews);
+                 # partial: RunViews packages the computational binding hypothesis and the product relation (ZK soundness)
+                 ("Tmcg.C16.bindsView_unsat", "full"), ("Tmcg.C16.sign_run_trace_sched", "full"),
+                 ("Tmcg.C16.view_of_rows", "full"), ("Tmcg.C16.shareOk_opens", "full"), ("Tmcg.C16.pedBind_violation", "full"),
+                 ("Tmcg.C16.prod_proof_extract", "full"), ("Tmcg.C16.prod_proof_simulate", "full"), ("Tmcg.C16.shEmit_spec", "full"),
+                 ("Tmcg.C16.sign_run_agree_views", "partial"), ("Tmcg.C16.sign_run_valid_views", "partial")],
     predicate=lambda line, st: (pred_cgjkr(line, st) if line.startswith(("prop.cgjkr.", "cgjkr.")) else pred_c16(line, st)),
     level_text="Theorems in Lean 4: the models of CanettiGennaroJareckiKrawczykRabinDSS::Verify and GennaroJareckiKrawczykRabinNTS::Verify return true exactly on the textbook DSA resp. Schnorr acceptance condition "
                "(range conditions and verification equation written in ZMod p, independent of the model's routines) for every input, and accept every textbook signature. Correspondence: the real verifiers on textbook "
@@ -1388,9 +1407,9 @@ PROPS["C16"] = dict(
                "correspondence and predicate on real signing runs (n forked parties, bad/missing shares of up to t signers): all honest parties that complete hold the same (c, s), it satisfies the textbook equation and the library's verifier accepts it. "
                "Threshold DSS (CGJKR): the (r, s) a completed Sign reconstructs is accepted by the DSA verifier model (theorem on the reconstructed values); real runs — DSS Generate, Sign, Refresh, Sign again, full and reduced signer sets, messages 0, 1, q-1, q, random, deviating signers — judged by the textbook DSA equation and agreement of all honest parties. "
                "DSS::Sign itself is modelled action by action (joint generation of k and a with the back-up sharings, product proofs, reconstructions, mu, r, s) and compared with the real class on a running digest of everything a party hands to the network (34 checkpoints per call), incl. deviating signers, reduced signer sets and runs after a refresh. "
-               "Run level for every script of the deviating signers: all honest parties that complete hold the same (r, s) and the verifier model accepts it — conditional on an explicit binding hypothesis for the run (RunBinding) and the semantic premises Fmu(0) = k a, Fs(0) = k (m + x r), which are not derived from the per-step checks (registered as partial); a complete honest run (p = 23, q = 11, n = 3, t = 1) is evaluated by the kernel.",
+               "Run level for every script of the deviating signers: all honest parties that complete hold the same (r, s) and the verifier model accepts it (sign_run_agree_views, sign_run_valid_views) — conditional on RunViews: at its scheduled rounds each honest party's own share and every in-range pair in its inbox that passes its check lie on one polynomial of degree <= t whose constant term is k a resp. k (m + x r) (registered as partial). view_of_rows reduces this, for one view, to Pedersen rows + binding of one explicit commitment per position with respect to the pairs that occur (a violation yields log_g h: pedBind_violation) + the product relation of the signers' sharings, which is exactly what the product proofs of steps 1c/1d/2c/2d give with soundness error 1/q (prod_proof_extract, prod_proof_simulate: not derivable from one deterministic run). The round-1 hypothesis RunBinding was unsatisfiable (bindsView_unsat): the theorems that used it were vacuous and are no longer registered. A complete honest run (p = 23, q = 11, n = 3, t = 1) is evaluated by the kernel.",
     level_note=LEVEL_NOTE + " The hash of the Schnorr verifier is an oracle parameter (answers logged from tmcg_mpz_shash).",
-    assumptions=["partial: the run-level DSS theorems sign_run_agree / sign_run_valid assume RunBinding (binding of the honest views of the sharings of mu and s by polynomials of degree <= t, agreement on the nested key) and the semantic premises on Fmu(0), Fs(0); NTS signing modelled on top of the synchronous DKG model",
+    assumptions=["partial: the run-level DSS theorems sign_run_agree_views / sign_run_valid_views assume RunViews (per honest party and scheduled round: own share and occurring checked pairs on one polynomial of degree <= t with the right constant term; agreement on the nested key a_dkg->y = g^a): binding of Pedersen commitments is computational, the product relation and the nested key rest on the soundness of Sigma-protocols (error 1/q); NTS signing modelled on top of the synchronous DKG model",
                  "observation, not a violation: signing the same message twice on one broadcast object reuses the broadcast identifiers and Sign returns false at every party (the harness gives every library call its own enclosing identifier)",
                  "Sign never tests r != 0 / s != 0: with probability about 2/q a completed run outputs a pair Verify refuses (hypothesis 0 < r, 0 < s in the theorem)"],
 )
